@@ -579,6 +579,42 @@ example : rightJoinK (fun r => eqTrue (r.headD .null) ((r[1]?).getD .null)) 1
 
 end OuterJoins
 
+/-! ### OR of equi-joins (`analyze_or_equi_join`): hash join on a common equality + post-filter -/
+
+/-- if the whole ON condition `c` implies one equality `kl = kr` (it occurs in every OR branch),
+the join may be executed as the equi join on that equality followed by `c` as a filter -/
+theorem C05_common_equality_prefilter (kl kr : Row → Value) (c : Row → Bool) (l r : List Row)
+    (h : ∀ a ∈ l, ∀ b ∈ r, c (a ++ b) = true → eqTrue (kl a) (kr b) = true) :
+    (nestedLoop kl kr l r).filter c = (l.flatMap (fun a => r.map (fun b => a ++ b))).filter c := by
+  unfold nestedLoop
+  rw [List.filter_flatMap, List.filter_flatMap]
+  apply flatMap_congr'
+  intro a ha
+  rw [List.filter_map, List.filter_map, List.filter_filter]
+  congr 1
+  apply List.filter_congr
+  intro b hb
+  by_cases hc : c (a ++ b) = true
+  · simp [Function.comp, hc, h a ha b hb hc]
+  · simp [Function.comp, hc]
+
+/-- and with the hash join in place of the nested loop (as a multiset) -/
+theorem C05_common_equality_hash (kl kr : Row → Value) (c : Row → Bool) (l r : List Row)
+    (h : ∀ a ∈ l, ∀ b ∈ r, c (a ++ b) = true → eqTrue (kl a) (kr b) = true) :
+    ((hashJoinInner kl kr l r).filter c).Perm ((l.flatMap (fun a => r.map (fun b => a ++ b))).filter c) := by
+  rw [← C05_common_equality_prefilter kl kr c l r h]
+  exact (C05_hash_inner_eq_nested kl kr l r).filter c
+
+/-- the side condition is needed: if some branch does not contain the chosen equality, rows are
+lost (two equalities that share only one side, `x = p OR x = q`, hashed on `x = p`) -/
+theorem C05_common_equality_needed :
+    ∃ (kl kr : Row → Value) (c : Row → Bool) (l r : List Row),
+      (nestedLoop kl kr l r).filter c ≠ (l.flatMap (fun a => r.map (fun b => a ++ b))).filter c := by
+  refine ⟨fun a => a.headD .null, fun b => b.headD .null,
+    fun row => eqTrue ((row[0]?).getD .null) ((row[1]?).getD .null) || eqTrue ((row[0]?).getD .null) ((row[2]?).getD .null),
+    [[.int 1]], [[.int 5, .int 1]], ?_⟩
+  decide
+
 /-! ### wrapping a table in a derived table -/
 
 /-- `FROM (SELECT * FROM t) AS d` may be replaced by `FROM t`: any outer query evaluated over
